@@ -1,7 +1,14 @@
 (* C15 — Paged List RPCs enumerate every item exactly once.
    Theorems only; proofs live in Pages/*Proofs.v.  Reading guide:
-     - [keys]   the listing the handler pages over: strictly ascending (Go string order), no empty key,
-                valid UTF-8 ([keys_wf]); for waste [ids] is the log in insertion order, listed newest first;
+     - [listing] the id fields (ElectricMode.Id, Hail.Id, Child.Name, Publication.Id, Consumable.Name,
+                Stock.Consumable) of the items in the order the MODEL-LEVEL listing returns them: pairwise
+                different, none empty, valid UTF-8 ([ids_wf]) - in ANY order: resource.Collection.List
+                sorts by the key an item is stored under, which an id interceptor (constructor option
+                resource.WithIDInterceptor) can order differently from the ids ([coll_listing f ids]);
+                the handler re-sorts by the id field ([sort_keys], read from the tree: [resorts_of s]) and
+                pages over that: [list_chain (resorts_of s) (cfg_of s) listing ...] is the handler,
+                [key_chain cfg keys ...] the pager proper on an ascending listing ([keys_wf]);
+                for waste [ids] is the log in insertion order, listed newest first;
      - [sizes]  the page_size of EACH request of a chain (request i sends sizes[i]; they may all differ);
                 the client makes at most [length sizes] calls;
      - [cfg_of s] the configuration of RPC [s] as READ FROM THE TREE on every run (Gen/Pagers.v: default
@@ -20,7 +27,9 @@
    All statements are for every listing / log, every page-size sequence and every token (induction on
    the number of calls); the six key-token RPCs are instances of ONE generic pager. *)
 From SC Require Import Base.Prelude Pages.Codec Pages.CodecProofs Pages.PagerCfg Gen.Pagers Pages.Pager
-  Pages.C15Judge Pages.PagerProofs Pages.WasteProofs Pages.PagerTable Pages.C15JudgeProofs.
+  Pages.Listing Pages.C15Judge Pages.PagerProofs Pages.ListingProofs Pages.WasteProofs Pages.PagerTable
+  Pages.C15JudgeProofs Pages.ListingHeadline.
+From Coq Require Import Sorted Permutation.
 
 (* page size: default 50, cap 1000 *)
 Theorem C15_cap_page_size : forall size, 0 <= size ->
@@ -43,8 +52,8 @@ Print Assumptions C15_source_tables_ok.
 
 (* the configuration read from the tree is, for every RPC, the hand model and satisfies [cfg_ok] *)
 Theorem C15_cfg_is_model : forall s,
-  cfg_eqb (cfg_of s) (std_cfg (variant_of s)) = true /\ cfg_ok (cfg_of s) = true.
-Proof. intros s. exact (conj (cfg_of_is_model s) (all_cfg_ok s)). Qed.
+  cfg_eqb (cfg_of s) (std_cfg (variant_of s)) = true /\ cfg_ok (cfg_of s) = true /\ resorts_of s = true.
+Proof. intros s. exact (conj (cfg_of_is_model s) (conj (all_cfg_ok s) (all_resort s))). Qed.
 Print Assumptions C15_cfg_is_model.
 
 (* page-token codec: decodePageToken (encodePageToken k) = k for EVERY key (valid UTF-8, any length),
@@ -69,14 +78,127 @@ Print Assumptions C15_codec_mixed_alphabets_refuted.
 
 (* ---- HEADLINE: the six key-token RPCs ---- *)
 
-(* For every RPC, every well-formed listing, every first token that decodes (empty, present key,
-   absent/deleted key, a token minted by another RPC, carrying whatever unknown fields [extra] -
-   the server hands those on in its own tokens), EVERY sequence of non-negative page
-   sizes, one per request, with or without a read mask that leaves the key out: following
-   next_page_token terminates by itself (within |rest| + 1 calls, exactly calls_key of them),
-   the pages are exactly the remaining items, in order, each once, page i within the cap of the
-   size request i asked for, total_size = n. *)
-Theorem C15_pages_enumerate : forall (s : server) keys dropkey sizes tok extra,
+(* For every RPC, ids in ANY order the collection may list them in (pairwise different, non-empty,
+   UTF-8), every first token that decodes (empty, present key, absent/deleted key, a token minted by
+   another RPC, carrying whatever unknown fields [extra] - the server hands those on in its own
+   tokens), EVERY sequence of non-negative page sizes, one per request, with or without a read mask
+   that leaves the key out: following next_page_token terminates by itself (within |rest| + 1
+   calls, exactly calls_key of them), the pages are exactly the remaining items in ascending order
+   of their ids, each once, page i within the cap of the size request i asked for, total_size = n. *)
+Theorem C15_pages_enumerate : forall (s : server) listing dropkey sizes tok extra,
+  ids_wf listing = true -> in32 (zlen listing) = true ->
+  Forall (fun z => 0 <= z) sizes -> tok <> TokMalformed -> Forall is_byte extra ->
+  let rest := expected_after (sort_keys listing) tok in
+  zlen rest < zlen sizes ->
+  let obs := list_chain (resorts_of s) (cfg_of s) listing dropkey sizes (WFirst tok extra) in
+  chain_shape_ok obs = true
+  /\ concat_keys obs = rest
+  /\ NoDup (concat_keys obs)
+  /\ pages_within_sizes (zlen listing) sizes obs
+  /\ zlen obs = calls_key (zlen rest) sizes
+  /\ zlen obs <= zlen rest + 1.
+Proof. exact list_pages_enumerate. Qed.
+Print Assumptions C15_pages_enumerate.
+
+(* ... in particular under EVERY id interceptor [f] (resource.WithIDInterceptor, e.g.
+   strings.ToLower): the collection lists by the keys [f id], the pages are the ids in ascending
+   order all the same.  Nothing is asked of [f]: the ids of a collection are pairwise different
+   because the keys they are stored under are ([C15_ids_distinct_by_keys]). *)
+Theorem C15_pages_enumerate_any_interceptor : forall (s : server) (f : string -> string) ids dropkey sizes tok extra,
+  ids_wf ids = true -> in32 (zlen ids) = true ->
+  Forall (fun z => 0 <= z) sizes -> tok <> TokMalformed -> Forall is_byte extra ->
+  let rest := expected_after (sort_keys ids) tok in
+  zlen rest < zlen sizes ->
+  let obs := list_chain (resorts_of s) (cfg_of s) (coll_listing f ids) dropkey sizes (WFirst tok extra) in
+  chain_shape_ok obs = true
+  /\ concat_keys obs = rest
+  /\ NoDup (concat_keys obs)
+  /\ pages_within_sizes (zlen ids) sizes obs
+  /\ zlen obs = calls_key (zlen rest) sizes
+  /\ zlen obs <= zlen rest + 1.
+Proof. exact list_pages_enumerate_any_interceptor. Qed.
+Print Assumptions C15_pages_enumerate_any_interceptor.
+
+Theorem C15_ids_distinct_by_keys : forall (f : string -> string) ids, NoDup (map f ids) -> nodupb ids = true.
+Proof. exact ids_distinct_by_keys. Qed.
+Print Assumptions C15_ids_distinct_by_keys.
+
+(* the two sorts: Collection.List (by key) and the handler's re-sort (by id) return permutations;
+   the re-sorted listing is ascending; and it depends on the SET of ids only, not on the order
+   the collection listed them in *)
+Theorem C15_listing_sorts : forall (f : string -> string) ids,
+  Permutation (coll_listing f ids) ids
+  /\ Permutation (sort_keys ids) ids
+  /\ (nodupb ids = true -> strictly_sorted (sort_keys ids) = true
+                           /\ sort_keys (coll_listing f ids) = sort_keys ids).
+Proof.
+  intros f ids. split; [apply coll_listing_perm|]. split; [apply sort_keys_perm|].
+  intros H. apply nodupb_spec in H. split.
+  - apply SS_strictly_sorted, sort_keys_sorted. exact H.
+  - apply sort_keys_of_perm; [|apply coll_listing_perm].
+    eapply Permutation_NoDup; [symmetry; apply coll_listing_perm|exact H].
+Qed.
+Print Assumptions C15_listing_sorts.
+
+(* resource.Collection.List under an interceptor: the ids come in strictly ascending order of the
+   keys they are stored under (the keys of a map are pairwise different), each once *)
+Theorem C15_collection_listing_by_key : forall (f : string -> string) ids, NoDup (map f ids) ->
+  strictly_sorted (map f (coll_listing f ids)) = true /\ Permutation (coll_listing f ids) ids.
+Proof.
+  intros f ids H. split; [|apply coll_listing_perm].
+  apply SS_strictly_sorted, SS_klt_map, coll_listing_sorted. exact H.
+Qed.
+Print Assumptions C15_collection_listing_by_key.
+
+(* the pager's search key must be the listing's sort key.  When the interceptor keeps the order
+   of the ids (no interceptor: f = id) the collection's listing is ascending by id, and a handler
+   WITHOUT the re-sort (the five Collection handlers before this round's fix) is the same function ... *)
+Theorem C15_search_key_is_sort_key : forall c (f : string -> string) ids dropkey sizes w,
+  (forall a b, String.ltb (f a) (f b) = String.ltb a b) -> nodupb ids = true ->
+  coll_listing f ids = sort_keys ids
+  /\ list_chain false c (coll_listing f ids) dropkey sizes w = key_chain c (sort_keys ids) dropkey sizes w.
+Proof.
+  intros c f ids dropkey sizes w H Hn. split; [apply coll_listing_monotone; exact H|].
+  apply list_chain_no_resort_monotone; assumption.
+Qed.
+Print Assumptions C15_search_key_is_sort_key.
+
+(* ... and when it does not (strings.ToLower and ids of mixed case) the handlers without the
+   re-sort binary-search a slice that is not ascending by the searched field: with modes a, b, c, D
+   and page size 4 EVERY answer, however many calls the client makes, is the same page with the same
+   token (all six RPCs; for parentpb this is seeded change C15-r4-2); with the eight names of that
+   seed's demonstration and page size 2 four of the eight are never listed, where the current
+   handlers list all eight *)
+Theorem C15_id_interceptor_v0_refuted :
+  (forall s fuel,
+     list_chain false (cfg_of s) (coll_listing ascii_lower abcD) false (const_sizes 4 fuel) (WFirst TokEmpty [])
+     = repeat (OPage abcD (Some "EgFE"%string) 4) fuel)
+  /\ coll_listing ascii_lower greek = ["Alpha"; "beta"; "delta"; "Epsilon"; "Eta"; "Gamma"; "theta"; "zeta"]%string
+  /\ concat_keys (list_chain false (cfg_of SPublication) (coll_listing ascii_lower greek) false (const_sizes 2 11) (WFirst TokEmpty []))
+     = ["Alpha"; "beta"; "theta"; "zeta"]%string
+  /\ concat_keys (list_chain true (cfg_of SPublication) (coll_listing ascii_lower greek) false (const_sizes 2 11) (WFirst TokEmpty []))
+     = ["Alpha"; "Epsilon"; "Eta"; "Gamma"; "beta"; "delta"; "theta"; "zeta"]%string.
+Proof. exact (conj no_resort_interceptor_endless no_resort_interceptor_skips). Qed.
+Print Assumptions C15_id_interceptor_v0_refuted.
+
+(* ... with the same page size on every request: exactly |rest| / cap + 1 calls (the trailing empty
+   page when |rest| is a multiple of the cap is what the code does) *)
+Theorem C15_pages_enumerate_same_size : forall (s : server) listing dropkey size tok extra fuel,
+  ids_wf listing = true -> in32 (zlen listing) = true -> 0 <= size -> tok <> TokMalformed -> Forall is_byte extra ->
+  let rest := expected_after (sort_keys listing) tok in
+  let c := cap_page_size size in
+  zlen rest / c + 1 <= Z.of_nat fuel -> zlen rest < Z.of_nat fuel ->
+  let obs := list_chain (resorts_of s) (cfg_of s) listing dropkey (const_sizes size fuel) (WFirst tok extra) in
+  zlen obs = zlen rest / c + 1
+  /\ chain_shape_ok obs = true
+  /\ concat_keys obs = rest
+  /\ NoDup (concat_keys obs)
+  /\ pages_within c (zlen listing) obs.
+Proof. exact list_pages_enumerate_const. Qed.
+Print Assumptions C15_pages_enumerate_same_size.
+
+(* the pager proper, on a listing that is ascending (what the handler hands it): same statement *)
+Theorem C15_pager_enumerates : forall (s : server) keys dropkey sizes tok extra,
   keys_wf keys = true -> in32 (zlen keys) = true ->
   Forall (fun z => 0 <= z) sizes -> tok <> TokMalformed -> Forall is_byte extra ->
   let rest := expected_after keys tok in
@@ -89,23 +211,7 @@ Theorem C15_pages_enumerate : forall (s : server) keys dropkey sizes tok extra,
   /\ zlen obs = calls_key (zlen rest) sizes
   /\ zlen obs <= zlen rest + 1.
 Proof. exact key_pages_enumerate. Qed.
-Print Assumptions C15_pages_enumerate.
-
-(* ... with the same page size on every request: exactly |rest| / cap + 1 calls (the trailing empty
-   page when |rest| is a multiple of the cap is what the code does) *)
-Theorem C15_pages_enumerate_same_size : forall (s : server) keys dropkey size tok extra fuel,
-  keys_wf keys = true -> in32 (zlen keys) = true -> 0 <= size -> tok <> TokMalformed -> Forall is_byte extra ->
-  let rest := expected_after keys tok in
-  let c := cap_page_size size in
-  zlen rest / c + 1 <= Z.of_nat fuel -> zlen rest < Z.of_nat fuel ->
-  let obs := key_chain (cfg_of s) keys dropkey (const_sizes size fuel) (WFirst tok extra) in
-  zlen obs = zlen rest / c + 1
-  /\ chain_shape_ok obs = true
-  /\ concat_keys obs = rest
-  /\ NoDup (concat_keys obs)
-  /\ pages_within c (zlen keys) obs.
-Proof. exact key_pages_enumerate_const. Qed.
-Print Assumptions C15_pages_enumerate_same_size.
+Print Assumptions C15_pager_enumerates.
 
 (* ... in particular from the first page: everything *)
 Theorem C15_first_token_lists_everything : forall keys, expected_after keys TokEmpty = keys.
@@ -120,18 +226,18 @@ Proof. exact key_page_variants_agree. Qed.
 Print Assumptions C15_parent_variant_same.
 
 (* malformed token or negative page size: one InvalidArgument, for every collection *)
-Theorem C15_bad_input_is_error : forall s keys dropkey size sizes tok extra,
+Theorem C15_bad_input_is_error : forall s listing dropkey size sizes tok extra,
   tok = TokMalformed \/ size < 0 ->
-  key_chain (cfg_of s) keys dropkey (size :: sizes) (WFirst tok extra) = [OErr InvalidArgument].
-Proof. exact key_bad_input_rejected. Qed.
+  list_chain (resorts_of s) (cfg_of s) listing dropkey (size :: sizes) (WFirst tok extra) = [OErr InvalidArgument].
+Proof. exact list_bad_input_rejected. Qed.
 Print Assumptions C15_bad_input_is_error.
 
 (* never a panic, whatever the client sends (token, page sizes - negative ones too) and however
    long it goes on *)
-Theorem C15_never_panics : forall s keys dropkey sizes tok extra,
-  keys_wf keys = true -> Forall is_byte extra ->
-  ~ In OPanic (key_chain (cfg_of s) keys dropkey sizes (WFirst tok extra)).
-Proof. exact key_never_panics. Qed.
+Theorem C15_never_panics : forall s listing dropkey sizes tok extra,
+  ids_wf listing = true -> Forall is_byte extra ->
+  ~ In OPanic (list_chain (resorts_of s) (cfg_of s) listing dropkey sizes (WFirst tok extra)).
+Proof. exact list_never_panics. Qed.
 Print Assumptions C15_never_panics.
 
 (* total_size is int32(len(items)): right as long as the collection has at most 2^31 - 1 items
@@ -186,9 +292,10 @@ Print Assumptions C15_waste_bad_input_is_error.
    input, all seven RPCs, every first token (empty, well-formed, malformed, out of range) and
    every page-size sequence including negative sizes anywhere in the chain ... *)
 Theorem C15_model_satisfies_property_keys : forall s keys dropkey sizes raw0 tok extra,
-  keys_wf keys = true -> in32 (zlen keys) = true -> zlen keys < zlen sizes -> Forall is_byte extra ->
-  C15_ok (KKeys s keys dropkey sizes raw0 tok extra (key_chain (cfg_of s) keys dropkey sizes (WFirst tok extra))) = true.
-Proof. intros s keys dropkey sizes raw0 tok extra. apply key_model_ok. apply all_cfg_ok. Qed.
+  ids_wf keys = true -> in32 (zlen keys) = true -> zlen keys < zlen sizes -> Forall is_byte extra ->
+  C15_ok (KKeys s keys dropkey sizes raw0 tok extra
+            (list_chain (resorts_of s) (cfg_of s) keys dropkey sizes (WFirst tok extra))) = true.
+Proof. intros s keys dropkey sizes raw0 tok extra. rewrite all_resort. apply list_model_ok. apply all_cfg_ok. Qed.
 Print Assumptions C15_model_satisfies_property_keys.
 
 Theorem C15_model_satisfies_property_waste : forall ids sizes tok,
@@ -196,6 +303,12 @@ Theorem C15_model_satisfies_property_waste : forall ids sizes tok,
   C15_ok (KWaste ids sizes tok (waste_chain ids sizes tok)) = true.
 Proof. exact waste_model_ok. Qed.
 Print Assumptions C15_model_satisfies_property_waste.
+
+Theorem C15_model_satisfies_property_listing : forall kv,
+  nodupb (map (assoc_key kv) (map fst kv)) = true ->
+  C15_ok (KListing kv (coll_listing (assoc_key kv) (map fst kv))) = true.
+Proof. exact listing_model_ok. Qed.
+Print Assumptions C15_model_satisfies_property_listing.
 
 (* ... hence an observation that agrees with the model satisfies the property *)
 Theorem C15_judge_sound : forall c, C15_guard c = true -> agrees c = true -> C15_ok c = true.
@@ -265,6 +378,25 @@ Example C15_nonvacuous_keys :
      = [OPage ["ab"%string; bstr [195; 169]] (Some "EgLDqRgB"%string) 5; OPage [] None 5].
 Proof. vm_compute. repeat split. Qed.
 
+(* ids in the order of their lower-cased keys (not ascending): the hypotheses hold, the guard of
+   the judge holds, the handler lists them in ascending order; an interceptor that is not even
+   injective on strings in general (ASCII lower case) *)
+(* the judge's guard is the hypothesis of the theorems *)
+Theorem C15_guard_is_ids_wf : forall ids, ids_wf_fast ids = ids_wf ids.
+Proof. exact ids_wf_fast_spec. Qed.
+Print Assumptions C15_guard_is_ids_wf.
+
+Example C15_nonvacuous_interceptor :
+  let ids := ["b"; "A"; "c"; "D"; bstr [195; 169]]%string in
+  let listing := coll_listing ascii_lower ids in
+  listing = ["A"; "b"; "c"; "D"; bstr [195; 169]]%string
+  /\ ids_wf listing = true /\ strictly_sorted listing = false
+  /\ NoDup (map ascii_lower ids)
+  /\ concat_keys (list_chain (resorts_of SHail) (cfg_of SHail) listing false [2; 1; 5000; 0] (WFirst TokEmpty []))
+     = ["A"; "D"; "b"; "c"; bstr [195; 169]]%string
+  /\ C15_guard (KKeys SHail listing false [2; 1; 5000; 0; 0; 0] EmptyString TokEmpty [] []) = true.
+Proof. vm_compute. repeat split; repeat constructor; simpl; intuition discriminate. Qed.
+
 (* waste: five records, page sizes 2, 1, 7: tokens 3 and 2, no trailing empty page *)
 Example C15_nonvacuous_waste :
   waste_chain ["r0"; "r1"; "r2"; "r3"; "r4"]%string [2; 1; 7; 7; 7] WEmpty
@@ -272,12 +404,20 @@ Example C15_nonvacuous_waste :
 Proof. vm_compute. reflexivity. Qed.
 
 (* the judge really distinguishes: a chain that skips an item, one that repeats a page after the
-   page size changed (seeded change C15-r3-2), one that never ends *)
+   page size changed (seeded change C15-r3-2), one that never ends; ids listed in the order of their
+   lower-cased keys: a chain without a first token may follow that order or the ascending one, but
+   not skip (seeded change C15-r4-2) *)
 Example C15_judge_rejects :
   C15_ok (KKeys SHail ["a"; "b"; "c"]%string false [2; 2; 2; 2; 2; 2] EmptyString TokEmpty []
             [OPage ["a"; "b"]%string (Some "EgFj"%string) 3; OPage [] None 3]) = false
   /\ C15_ok (KKeys SInventory ["a"; "b"; "c"]%string false [2; 50; 2; 2; 2; 2] EmptyString TokEmpty []
             [OPage ["a"; "b"]%string (Some "EgFi"%string) 3; OPage ["a"; "b"; "c"]%string None 3]) = false
   /\ C15_ok (KKeys SElectric ["a"; "b"; "c"]%string true [2; 2; 2; 2; 2; 2] EmptyString TokEmpty []
-            (repeat (OPage ["a"; "b"]%string (Some "EgA="%string) 3) 6)) = false.
+            (repeat (OPage ["a"; "b"]%string (Some "EgA="%string) 3) 6)) = false
+  /\ C15_ok (KKeys SParent ["a"; "B"; "c"]%string false [5; 5; 5; 5; 5] EmptyString TokEmpty []
+            [OPage ["a"; "B"; "c"]%string None 3]) = true
+  /\ C15_ok (KKeys SParent ["a"; "B"; "c"]%string false [5; 5; 5; 5; 5] EmptyString TokEmpty []
+            [OPage ["B"; "a"; "c"]%string None 3]) = true
+  /\ C15_ok (KKeys SParent ["a"; "B"; "c"]%string false [1; 1; 1; 1; 1] EmptyString TokEmpty []
+            [OPage ["a"]%string (Some "EgFh"%string) 3; OPage [] None 3]) = false.
 Proof. vm_compute. repeat split. Qed.
